@@ -77,9 +77,14 @@ Definition hold_refresh (st : state) (level g : N) (dur : Z) (snaps : list N) : 
   let a := hold_loop (st_now st) (st_lastref st) level g snaps (mkAcc (st_gating st) dur 0 false) in
   if a_err a then (drop_holder (a_gt a) g snaps, None) else (a_gt a, Some (a_dmin a)).
 
-(* HoldRefreshesBySystem: None = forever, Some t = the parsed RFC3339 time; all snaps are installed *)
+(* HoldRefreshesBySystem: None = forever, Some t = the parsed RFC3339 time; all snaps are installed. The zero duration
+   means maximum to HoldRefresh, so a requested time equal to the current instant is turned into -1 ns (an already
+   expired hold) *)
 Definition sys_duration (now : Z) (t : option Z) : Z :=
-  match t with None => 0 | Some u => time_sub u now end.
+  match t with
+  | None => 0
+  | Some u => let d := time_sub u now in if d =? 0 then -1 else d
+  end.
 
 (* ProceedWithRefresh: empty list = every snap held by g *)
 Definition proceed (gt : gating) (g : N) (snaps : list N) : gating :=
@@ -169,7 +174,10 @@ Definition sys_untouched (s : N) (o : op) : bool :=
 
 (* the end of a system hold requested at time now: forever = the largest duration *)
 Definition sys_until (now : Z) (t : option Z) : Z :=
-  match t with None => now + max_int64 | Some u => now + clamp64 (u - now) end.
+  match t with
+  | None => now + max_int64
+  | Some u => now + (if clamp64 (u - now) =? 0 then -1 else clamp64 (u - now))
+  end.
 
 (* ------------------------------------------------------------------ correspondence interface *)
 
@@ -251,11 +259,12 @@ Definition sys_remove (l : list (N * (Z * N))) (snaps : list N) (all : bool) : l
   filter (fun e => negb (all || mem (fst e) snaps)) l.
 
 (* the effect of an operation on the monitor's expectation of system holds. A system hold whose requested end is
-   exactly the current time is recorded with that end (the property says: lasts until the requested time). *)
+   exactly the current instant is an already expired hold: it must not be reported, neither at that instant nor later
+   (it used to last forever: repaired defect, fixed: line in KNOWN_FINDINGS). *)
 Definition sys_after (m : list (N * (Z * N))) (now : Z) (o : op) : list (N * (Z * N)) :=
   match o with
   | SysHold level t snaps =>
-      let e := match t with None => now + max_int64 | Some u => u end in
+      let e := match t with None => now + max_int64 | Some u => if u =? now then now - 1 else u end in
       map (fun s => (s, (e, level))) snaps ++ sys_remove m snaps false
   | Hold level g dur snaps =>
       if (g =? system)%N then
